@@ -134,7 +134,9 @@ def apply_fault(lines: List[str], i: int, fault: str, variant: int) -> List[str]
         k = mask(ln).index('[')
         new[i] = ln[:k] + ['[zzz, ', "[zzz: 'v', ", '[zzz: 1, '][variant % 3] + ln[k + 1:]
     elif fault == 'unknown_index_type':
-        new[i] = re.sub(r'\btype: \w+', 'type: zzz', ln, count=1)
+        # an unknown word, fragments and extensions of real types
+        bad = ['zzz', 'tree', 'has', 'gi', 'b', 'spg', 'hashh', 'btre'][variant % 8]
+        new[i] = re.sub(r'\btype: \w+', 'type: ' + bad, ln, count=1)
     elif fault == 'bad_ref_operator':
         new[i] = re.sub(r' (<>|>|<|-) ', [' => ', ' >> ', ' ~ '][variant % 3], ln, count=1)
     elif fault == 'bad_action':
@@ -239,7 +241,7 @@ def main(argv: List[str]) -> int:
             for fault in FAULTS:
                 if i >= len(lines) and fault not in ('illegal_char_line', 'stray_identifier_line', 'stray_comma_line'):
                     continue
-                for variant in range(8 if fault == 'bad_action' else 3 if fault in ('empty_settings', 'trailing_comma_in_settings', 'missing_comma_in_settings', 'missing_value', 'ref_without_column', 'keyword_typo') else 4 if fault in ('duplicate_open_bracket', 'duplicate_close_bracket') else 3 if fault in ('illegal_char_line', 'bad_colour', 'bad_ref_operator', 'text_after_close_brace', 'unknown_setting') else 1):
+                for variant in range(8 if fault in ('bad_action', 'unknown_index_type') else 3 if fault in ('empty_settings', 'trailing_comma_in_settings', 'missing_comma_in_settings', 'missing_value', 'ref_without_column', 'keyword_typo') else 4 if fault in ('duplicate_open_bracket', 'duplicate_close_bracket') else 3 if fault in ('illegal_char_line', 'bad_colour', 'bad_ref_operator', 'text_after_close_brace', 'unknown_setting') else 1):
                     try:
                         new = apply_fault(lines + ([''] if i >= len(lines) else []), i, fault, variant + (seed if fault != 'unknown_setting' else 0))
                     except (ValueError, AttributeError, ZeroDivisionError, IndexError):
